@@ -191,6 +191,9 @@ func checkMatching(h *history) error {
 	var polls []pinfo
 	for k, e := range sc.Events {
 		r := h.Res[k]
+		if e.Kind == "poll" && !validNATWire(e.NAT) && r.PollStatus == "client match" {
+			return fmt.Errorf("poll event #%d reports NAT %q, which is none of the three NAT types, yet it was handed a client's offer", k, *e.NAT)
+		}
 		if !pollRegisters(sc, &e, &r) {
 			continue
 		}
